@@ -2097,3 +2097,110 @@ Section StmtStep.
       inversion Hwt; subst. apply wp_ret. eapply (spost_same S S); eauto using ext_refl.
   Qed.
 End StmtStep.
+
+(* ---------- the induction on the fuel ---------- *)
+Theorem all_sound_n : forall n, all_sound n.
+Proof.
+  induction n as [|f IH].
+  - repeat split; red; intros; exact I.
+  - pose proof IH as (I1 & I2 & I3 & I4 & I5 & I6 & I7 & I8 & I9).
+    split; [apply expr_step; auto|]. split; [apply exprs_step; auto|]. split; [apply call_step; auto|].
+    split; [apply stmt_step; auto|]. split; [apply stmts_step; auto|]. split; [apply block_step; auto|].
+    split; [apply cond_step; auto|]. split; [apply while_step; auto|]. apply for_step; auto.
+Qed.
+
+(* ---------- whole runs ---------- *)
+Definition goes_wrong (o : outcome) : Prop :=
+  match o with OErr (EInternal _) | OErr (EHostCrash _) => True | _ => False end.
+
+Definition genv0 : tyenv := [(false, global_frame0)].
+
+(* a state a run may start from: some store typing makes the heap well typed
+   and the globals are the built-in ones at their types *)
+Definition state_ok (s : state) : Prop := exists S, inv S genv0 [] s.
+
+Lemma genv0_ok : genv_ok genv0.
+Proof. split; reflexivity. Qed.
+
+Lemma heap_ok_empty : heap_ok (PositiveMap.empty ty) hempty.
+Proof.
+  constructor; intros l t H; unfold sfind in H; rewrite PositiveMap.gempty in H; discriminate.
+Qed.
+
+Lemma init_state_ok stop input ff ay : state_ok (init_state stop input ff ay).
+Proof.
+  destruct (heap_ok_alloc _ _ (HBool false) TBool heap_ok_empty (CBool _ false) eq_refl) as (E1 & H1 & F1).
+  destruct (heap_ok_alloc _ _ (HStr []) TStr H1 (CStr _ []) eq_refl) as (E2 & H2 & F2).
+  destruct (heap_ok_alloc _ _ (HNum (float_of_bits pi_bits)) TNum H2 (CNum _ _) eq_refl) as (E3 & H3 & F3).
+  eexists. split; [exact H3|].
+  unfold full, genv0. cbn [init_state st_globals app]. constructor; [|constructor].
+  change global_frame0 with [(n_err, TBool); (n_errmsg, TStr); (s_ "pi", TNum)].
+  change (st_globals (init_state stop input ff ay))
+    with [(n_err, 1%positive); (n_errmsg, 2%positive); (s_ "pi", 3%positive)].
+  split.
+  - intros n t. cbn [sget frame_get].
+    repeat match goal with |- context [str_eqb ?k n] =>
+      destruct (str_eqb k n);
+      [intros H; inversion H; subst; eexists; split; [reflexivity|];
+       first [reflexivity | apply F3 | apply E3, F2 | apply E3, E2, F1]|] end.
+    discriminate.
+  - intros n l. cbn [sget frame_get].
+    repeat match goal with |- context [str_eqb ?k n] => destruct (str_eqb k n); [discriminate|] end.
+    discriminate.
+Qed.
+
+Lemma wt_program_top P : wt_program P = true ->
+  exists G', wt_stmts (p_funcs P) None false genv0 (p_stmts P) = Some G'.
+Proof.
+  unfold wt_program, wt_top, genv0. destruct (wt_stmts (p_funcs P) None false _ (p_stmts P)); [eauto|discriminate].
+Qed.
+
+(* Soundness, Stage 1: a checked program of the fragment never goes wrong *)
+Theorem soundness_stage1 P :
+  wt_program P = true -> s1_program P = true ->
+  forall fuel s0, state_ok s0 -> ~ goes_wrong (fst (run_program fuel P s0)).
+Proof.
+  intros Hwt Hs1 fuel s0 (S & Hi) Hbad.
+  destruct (wt_program_top P Hwt) as (G' & Htop).
+  destruct (all_sound_n fuel) as (_ & _ & _ & _ & Hstmts & _).
+  assert (W : wp ((let* _ := tick in let* _ := exec_stmts fuel P [] (p_stmts P) in Sem.ret tt) s0)
+                 (fun _ _ => True)).
+  { apply wp_bind. eapply tick_inv; [exact Hi|]. intros s1 Hi1.
+    wbind ltac:(eapply (Hstmts P None false [] (p_stmts P) genv0 G' S); eauto using genv0_ok).
+    intros r s2 _. exact I. }
+  unfold run_program in Hbad.
+  destruct ((let* _ := tick in let* _ := exec_stmts fuel P [] (p_stmts P) in Sem.ret tt) s0) as [[u|er] s1].
+  - simpl in Hbad. destruct (Nat.ltb 0 (st_fails (test_report s1))); exact Hbad.
+  - simpl in W, Hbad. destruct er; simpl in *; auto.
+Qed.
+
+(* Preservation, Stage 1: under a store typing S that types the heap and the
+   environment, an expression of static type t evaluates (if it returns) to a
+   cell of dynamic type t in an extended store typing that still types heap
+   and environment; no evaluation ends in an internal error or a host crash. *)
+Theorem preservation_stage1 : forall n P e x G t S s,
+  ety (p_funcs P) G x = Some t -> s1_expr x = true -> genv_ok G -> inv S G e s ->
+  match eval_expr n P e x s with
+  | (Ok l, s') => exists S', ext S S' /\ inv S' G e s' /\ sfind S' l = Some t
+  | (Er er, _) => safe_err er
+  end.
+Proof. intros n. exact (proj1 (all_sound_n n)). Qed.
+
+(* every `any` cell of a typed heap carries a concrete, non-any type and holds
+   a value of exactly that type *)
+Theorem any_cells_concrete S h l :
+  heap_ok S h -> sfind S l = Some TAny ->
+  exists u i v, hget h l = Some (HAny u i) /\ u <> TAny /\ sfind S i = Some u /\
+                hget h i = Some v /\ cell_ok S v u.
+Proof.
+  intros Hh Hl. destruct (ho_cells _ _ Hh _ _ Hl) as (v & Hg & Hc). inversion Hc; subst.
+  destruct (ho_cells _ _ Hh _ _ H0) as (v' & Hg' & Hc').
+  exists u, i, v'. repeat split; auto. intros ->; discriminate.
+Qed.
+
+Theorem any_cells_only_at_any S h l u i :
+  heap_ok S h -> hget h l = Some (HAny u i) -> forall t, sfind S l = Some t -> t = TAny.
+Proof.
+  intros Hh Hg t Hl. destruct (ho_cells _ _ Hh _ _ Hl) as (v & Hg' & Hc).
+  rewrite Hg in Hg'; inversion Hg'; subst. inversion Hc; auto.
+Qed.
